@@ -492,6 +492,10 @@ func ruleP19Remove(p *Prog, r *Report) {
 				if lk, isLk := strip(x).(*ssa.Lookup); isLk && isMap(lk.X, rem) && strip(lk.Index) == ssa.Value(rem.Params[1]) {
 					present = true
 				}
+				// through the collection's own Get (a plain lookup of that key, P19-names)
+				if nm, recv, gargs, _ := methodCall(x); nm == "Get" && len(gargs) == 1 && recv != nil && strip(recv) == ssa.Value(rem.Params[0]) && strip(gargs[0]) == ssa.Value(rem.Params[1]) {
+					present = true
+				}
 			}
 		}
 		r.check(present, rule, "Remove:present", p.instrPos(del), "deletes only a key that is present (absent -> false, nothing changes)", "Remove does not test the presence of the very key")
@@ -680,6 +684,13 @@ func ruleP19JsonSym(p *Prog, r *Report) {
 			}
 		}
 	})
+	// (json encodes a value and a pointer to it alike)
+	if pt, isP := encT.(*types.Pointer); isP && encT != nil {
+		encT = pt.Elem()
+	}
+	if pt, isP := decT.(*types.Pointer); isP && decT != nil {
+		decT = pt.Elem()
+	}
 	r.check(encT != nil && decT != nil && types.Identical(encT, decT), rule, "same-type", p.pos(tj.Pos()), fmt.Sprintf("writer and reader use %v", encT), fmt.Sprintf("writer encodes %v but reader decodes %v", encT, decT))
 	if unm == nil {
 		return
